@@ -27,6 +27,10 @@ def run(ctx):
     ctx.require_actions(r, ["TryMetrics", "TryTraces", "TryLogs", "Discard"], "OtlpRoute")
     cases = os.path.join(ctx.out, "cases.ndjson")
     n = vlib.extract_printed(r.out_path, "REPLAY", cases)
+    with open(cases) as f:          # TLC's workers print in any order: fix it
+        srt = sorted(f.readlines())
+    with open(cases, "w") as f:
+        f.writelines(srt)
     rc = ctx.replay_case()
     if rc is not None:
         with open(cases, "w") as f:
